@@ -52,6 +52,11 @@ def gen(item, rng, tier):
         if rng.random() < 0.08:
             # the controller window and the device behind it need not have the same size
             d['ram_size'] = max(1, s + rng.choice([-3, -1, 1, 4, 16]))
+        elif devs and rng.random() < 0.06:
+            # a second window onto the SAME device as an earlier controller: a write through one window must be visible through the other
+            k0 = rng.randrange(len(devs))
+            if 'alias_of' not in devs[k0]:
+                d = {'begin': cur, 'end': cur + s, 'alias_of': k0}
         devs.append(d)
         cur += s
     big = rng.random() < 0.04
@@ -91,8 +96,10 @@ def gen(item, rng, tier):
         for _ in range(rng.randrange(1, 5)):
             k = rng.random()
             at = rng.randrange(1, len(ops))
-            if k < 0.45:
+            if k < 0.35:
                 rc = {'op': 'move', 'dev': rng.randrange(len(devs)), 'delta': rng.choice([-0x40, -8, -1, 1, 4, 0x40, 0x1000])}
+            elif k < 0.45:
+                rc = {'op': 'remove', 'dev': rng.randrange(len(devs))}
             elif k < 0.75 and len(devs) > 1:
                 a, b = rng.sample(range(len(devs)), 2)
                 rc = {'op': 'swap', 'a': a, 'b': b}
@@ -106,7 +113,9 @@ def gen(item, rng, tier):
 
 class Model:
     def __init__(self, devs):
-        self.devs = [(d['begin'], d['end'], bytearray(_fill(d))) for d in devs]       # (window begin, window end, device bytes)
+        self.devs = []                                                             # (window begin, window end, device bytes)
+        for d in devs:
+            self.devs.append((d['begin'], d['end'], self.devs[d['alias_of']][2] if 'alias_of' in d else bytearray(_fill(d))))
 
     def find(self, addr):
         for i, (b, e, _) in enumerate(self.devs):
@@ -117,6 +126,7 @@ class Model:
 
 def _fill(d):
     size = d.get('ram_size', d['end'] - d['begin'])
+    assert 'alias_of' not in d
     f = bytes.fromhex(d.get('fill') or '') or b'\0'
     return (f * (size // len(f) + 1))[:size]
 
@@ -158,6 +168,11 @@ def run(case):
     model = Model(case['devices'])
     rams = []
     for d in case['devices']:
+        if 'alias_of' in d:
+            ram = rams[d['alias_of']]
+            arm.mem.memories.append(MemoryController(ram, d['begin'], d['end']))
+            rams.append(ram)
+            continue
         if case.get('via_add_memory') and 'ram_size' not in d:
             # the library's own construction path (what from_memory_list() does for a configuration file)
             arm.mem.add_memory('RAM', d['begin'], d['end'])
@@ -201,16 +216,19 @@ def run(case):
     ticks = 0
     ctrls = list(arm.mem.memories[:len(rams)])           # parallel to model.devs / rams / len0
     for idx, op in enumerate(case['ops']):
-        if op['op'] in ('move', 'swap', 'add'):
+        if op['op'] in ('move', 'swap', 'add', 'remove'):
             count('fault.reconfigure-' + op['op'])
-            if op['op'] == 'move' and op['dev'] < len(ctrls):
+            if op['op'] == 'remove' and op['dev'] < len(ctrls) and ctrls[op['dev']] in arm.mem.memories and len(arm.mem.memories) > 2:
+                arm.mem.memories.remove(ctrls[op['dev']])
+                model.devs[op['dev']] = (0, 0, model.devs[op['dev']][2])          # no window any more; the device bytes stay as they are
+            elif op['op'] == 'move' and op['dev'] < len(ctrls) and ctrls[op['dev']] in arm.mem.memories:
                 j = op['dev']
                 b, e, mb = model.devs[j]
                 if b + op['delta'] >= 0 and not (b + op['delta'] < CODE + 0x100 and CODE < e + op['delta']):
                     ctrls[j].beginning += op['delta']
                     ctrls[j].end += op['delta']
                     model.devs[j] = (b + op['delta'], e + op['delta'], mb)
-            elif op['op'] == 'swap' and max(op['a'], op['b']) < len(case['devices']):
+            elif op['op'] == 'swap' and max(op['a'], op['b']) < len(case['devices']) and ctrls[op['a']] in arm.mem.memories and ctrls[op['b']] in arm.mem.memories:
                 a, b = op['a'], op['b']
                 ia, ib = arm.mem.memories.index(ctrls[a]), arm.mem.memories.index(ctrls[b])
                 arm.mem.memories[ia], arm.mem.memories[ib] = arm.mem.memories[ib], arm.mem.memories[ia]
